@@ -135,8 +135,36 @@ def registry_demo(chk):
     return bad
 
 
+def coverage_demo():
+    """vacuity: with TLC's -coverage, every action of the multi-action machines is taken"""
+    bad = 0
+    runs = [
+            ("PathHeap", {"constants": {"CopyOnDescend": "TRUE", "MaxDepth": "2", "MaxFan": "2"},
+                          "invariants": ["ErrorsPointAtTheirValue"]}, ["Report", "Descend", "Return"])]
+    for module, cfg, actions in runs:
+        res = tlc.run(module, cfg, "selftest_cov_" + module, coverage=True, timeout=1500)
+        missing = [a for a in actions if res.coverage.get(a, 0) == 0]
+        print("%-10s actions taken: %d/%d %s (%d states)" % (module, len(actions) - len(missing), len(actions),
+                                                            ("MISSING " + ", ".join(missing)) if missing else "", res.distinct))
+        bad += len(missing)
+    # the top-level machine: TLC's coverage mode runs out of memory on it (it costs out every set
+    # constructor); the actions taken are counted from the histories stepped on real objects instead
+    import json
+    counts = json.load(open(os.path.join(os.path.dirname(os.path.dirname(os.path.abspath(__file__))),
+                                         "evidence", "C07.json")))["coverage"]["counts"]
+    ops = ["bare", "refine", "new_slist", "new_sdict", "new_value", "list_from", "dict_from", "from_native", "substitute",
+           "validate", "union", "add", "eq", "make_required", "make_required_key", "alias", "represent", "fake", "mutate"]
+    missing = [o for o in ops if counts.get("op_" + o, 0) == 0]
+    print("D42        operations stepped on real objects (evidence/C07.json): %d/%d %s" % (
+        len(ops) - len(missing), len(ops), ("MISSING " + ", ".join(missing)) if missing else ""))
+    bad += len(missing)
+    return bad
+
+
 if __name__ == "__main__":
     n = 0
+    if "--no-coverage" not in sys.argv:
+        n += coverage_demo()
     if "--no-dev" not in sys.argv:
         n += dev_cases()
     if "--no-binding" not in sys.argv:
